@@ -17,6 +17,8 @@ RULE = ("APIs from harness/gv/props/flatapi.py: main package (proto-plus), optio
         "a paged and a long-running RPC, with and without add-iam-methods and mixins. "
         "For each RPC and each of the sync and asyncio clients: the request given as message, as dict and omitted (unary) or a "
         "stream of 0..3 messages (client-streaming), random request and reply valuations, 0..3 replies for server-streaming; "
+        "APIs with several services where a non-last one declares rpcs named like the IAM mixin methods (own or google.iam.v1 "
+        "types) under a service config listing that mixin, driven over gRPC (sync, asyncio) and REST; "
         "per service one unary and one server-streaming call with 6 MiB replies through a transport built with a channel factory. "
         "One case = (API, RPC, client, spelling, request bytes, reply bytes); distinct = distinct canonical JSON of these; "
         "non-trivial = a call was issued. The asyncio legacy-IAM witness (DESIGN section 9 no. 3) runs first.")
@@ -126,11 +128,57 @@ def make_api(r, shape, *, add_iam=False, mixins=False, collide=False):
     return req, yaml
 
 
-def mixin_names(yaml):
-    """api.mixin_api_methods keys read off the service config: Locations, then IAMPolicy, then Operations; within each the http rules in order"""
+IAM_NAMES = ("SetIamPolicy", "GetIamPolicy", "TestIamPermissions")
+
+
+def make_iam_api(r, own_types, first=True):
+    """several services; one that is not the last (first=True) declares rpcs NAMED like the IAM mixin methods, with request and
+    response types of its own or google.iam.v1's; the service config lists the google.iam.v1.IAMPolicy mixin with http rules.
+    The API's own rpcs must win: /<pkg>.<Service>/<Method>, not /google.iam.v1.IAMPolicy/<Method>."""
+    pkg = r.choice(["acme.vault.v1", "google.example.keys.v2"])
+    d = pkg.replace(".", "/")
+    main = apigen.File(d + "/vault.proto", pkg, deps=list(apigen.STD_DEPS) + ["google/iam/v1/iam_policy.proto", "google/iam/v1/policy.proto",
+                                                                             "google/protobuf/empty.proto"])
+    vault = main.message("VaultItem")
+    vault.field("name", 1, "string").field("size", 2, "int64").field("tags", 3, "string", repeated=True)
+    gv = main.message("GetVaultRequest")
+    gv.field("name", 1, "string")
+    if own_types:
+        preq = main.message("VaultPolicyRequest")
+        preq.field("resource", 1, "string").field("note", 2, "string").field("version", 3, "int32")
+        pol = main.message("VaultPolicy")
+        pol.field("etag", 1, "string").field("version", 2, "int32").field("members", 3, "string", repeated=True)
+        types = {n: (preq.fqn, pol.fqn) for n in IAM_NAMES}
+    else:
+        types = {"SetIamPolicy": (".google.iam.v1.SetIamPolicyRequest", ".google.iam.v1.Policy"),
+                 "GetIamPolicy": (".google.iam.v1.GetIamPolicyRequest", ".google.iam.v1.Policy"),
+                 "TestIamPermissions": (".google.iam.v1.TestIamPermissionsRequest", ".google.iam.v1.TestIamPermissionsResponse")}
+    names = ["Vault", "Auditor", "Keeper"][: r.choice([2, 3])]
+    owner = names[0] if first else names[-2]
+    declared = list(IAM_NAMES) if r.random() < 0.6 else r.sample(list(IAM_NAMES), 2)
+    host = "vault.example.com"
+    for sn in names:
+        svc = main.service(sn, host=host)
+        svc.rpc("Get" + sn + "Item", gv.fqn, vault.fqn, http=("get", "/v1/{name=" + sn.lower() + "s/*}"))
+        svc.rpc("Watch" + sn, gv.fqn, vault.fqn, ss=True)
+        if sn == owner:
+            for n in declared:
+                svc.rpc(n, types[n][0], types[n][1], http=("post", "/v1/own/{resource=vaults/*}:" + n[0].lower() + n[1:]), body="*")
+    yaml = {"type": "google.api.Service", "config_version": 3, "name": host, "apis": [{"name": "google.iam.v1.IAMPolicy"}],
+            "http": {"rules": [{"selector": "google.iam.v1.IAMPolicy." + n, "post": "/v1/mixin/{resource=**}:" + n[0].lower() + n[1:], "body": "*"}
+                               for n in IAM_NAMES]}}
+    return apigen.request([main], parameter="transport=grpc+rest"), yaml
+
+
+def mixin_names(yaml, idx=None):
+    """api.mixin_api_methods keys read off the service config: Locations, then IAMPolicy, then Operations; within each the http
+    rules in order. The IAMPolicy mixin is dropped as a whole when ANY service of the API declares an rpc named like one of its
+    methods (the API's own rpc wins)."""
     if not yaml:
         return []
     enabled = [a["name"] for a in yaml.get("apis", [])]
+    if idx is not None and any(m.name in IAM_NAMES for _, sv in idx.services() for m in sv.method):
+        enabled = [e for e in enabled if e != "google.iam.v1.IAMPolicy"]
     out = []
     for svc_name in ("google.cloud.location.Locations", "google.iam.v1.IAMPolicy", "google.longrunning.Operations"):
         if svc_name in enabled:
@@ -275,7 +323,7 @@ class ApiRun:
         self.stag = re.sub(r"\W", "_", tag)
         self.defs, self.checks = [], []
         self.add_iam = "add-iam-methods" in req.parameter.split(",")
-        self.mixins = mixin_names(yaml)
+        self.mixins = mixin_names(yaml, self.idx)
         self.svcs = list(self.idx.services())
 
     def sname(self, i):
@@ -436,6 +484,15 @@ class ApiRun:
                     consume_ok = True
                 rq, rs = m.input_type[1:], m.output_type[1:]
                 cname = self.client_method_name(i, j)
+                rest = self.rest_rule(m)
+                if rest is not None:
+                    var, pattern, uri = rest
+                    rm = scrub(self.dyn.random(r, rq, fill=0.6))
+                    setattr(rm, var, pattern.replace("*", "v1"))
+                    cid = f"{i}/{j}/Rest/message"
+                    calls.append({"id": cid, "service_module": U.snake(s.name), "client": s.name + "Client", "transport": "rest", "method": cname,
+                                  "request": {"mode": "message", "cls": self.cls_path(vm, "." + rq), "b64": U.b64(rm)}})
+                    meta[cid] = (i, j, "Rest", "rest", rm, uri.replace("{" + var + "=" + pattern + "}", pattern.replace("*", "v1")), var)
                 for variant, client, tr in (("Sync", s.name + "Client", "grpc"), ("Async", s.name + "AsyncClient", "grpc_asyncio")):
                     base = {"service_module": U.snake(s.name), "client": client, "transport": tr, "method": cname,
                             "consume": "ignore" if not consume_ok else "stream" if m.server_streaming else "value"}
@@ -524,6 +581,9 @@ class ApiRun:
             if mt[3] == "big_reply":
                 self.judge_big(cid, o, mt)
                 continue
+            if mt[3] == "rest":
+                self.judge_rest(cid, o, mt)
+                continue
             i, j, variant, sp, sent, replies, consume_ok = mt
             fp, s = self.svcs[i]
             m = s.method[j]
@@ -545,6 +605,7 @@ class ApiRun:
                      + (["response-named-Empty-but-not-google.protobuf.Empty"] if (m.output_type.endswith(".Empty") and m.output_type != U.EMPTY) else [])
                      + (["http-path-variable+" + ("client-streaming" if m.client_streaming and not m.server_streaming else "bidi" if m.client_streaming
                                                    else "server-streaming" if m.server_streaming else "unary")] if self.has_path_var(m) else [])
+                     + (["rpc-named-like-iam-mixin-method"] if m.name in IAM_NAMES else [])
                      + (["keyword-or-unsafe-rpc-name"] if self.facts["services"][s.name]["methods"][j]["safe_snake"].endswith("_") else [])
                      + (["safe-name-suffix"] if self.facts["services"][s.name]["methods"][j]["safe_snake"].endswith("_") else []))
             if not o["ok"] and o.get("stage") == "import":
@@ -634,6 +695,42 @@ class ApiRun:
             if back != replies:
                 ctx.violation(f"{s.name}.{m.name} ({variant}, {sp}): returned/streamed value differs from what the server sent "
                               f"({len(back)} vs {len(replies)} messages)", dict(case, returned_b64=[U.b64(x) for x in back]), known)
+
+    def rest_rule(self, m):
+        """(path variable, its pattern, uri) of a POST rule with the whole request as body and one top-level string path variable,
+        when the library was generated with a REST transport; None otherwise"""
+        from google.api import annotations_pb2
+        rule = m.options.Extensions[annotations_pb2.http]
+        if "rest" not in self.req.parameter or not rule.post or rule.body != "*" or m.client_streaming or m.server_streaming:
+            return None
+        mm = re.fullmatch(r"[^{}]*\{(\w+)=([^{}]+)\}[^{}]*", rule.post)
+        return (mm.group(1), mm.group(2), rule.post) if mm else None
+
+    def judge_rest(self, cid, o, mt):
+        from google.protobuf import json_format
+        ctx = self.ctx
+        i, j, _, _, sent, want_path, var = mt
+        fp, s = self.svcs[i]
+        m = s.method[j]
+        case = dict(self.case, service=s.name, method=m.name, variant="Rest", spelling="message", requests_b64=[U.b64(sent)])
+        ctx.case({"api": self.h, "method": m.name, "variant": "Rest", "req": case["requests_b64"]}, nontrivial=True,
+                 feature=["Rest", "rpc-named-like-iam-mixin-method"] if m.name in IAM_NAMES else ["Rest"])
+        hc = o.get("http_calls") or []
+        if not o["ok"]:
+            ctx.violation(f"{s.name}.{m.name} (REST) raised {o['error']['exception']}: {clean(o['error']['message'])[:200]}", case)
+            return
+        if len(hc) != 1 or hc[0]["verb"] != "POST" or hc[0]["path"] != want_path:
+            ctx.violation(f"{s.name}.{m.name} (REST): requests {[(h['verb'], h['path']) for h in hc]} instead of one POST {want_path}", case)
+            return
+        got = self.dyn.new(m.input_type[1:])
+        try:
+            json_format.Parse(hc[0]["body"] or "{}", got)
+            setattr(got, var, getattr(sent, var))          # the path variable travels in the URI
+        except Exception as e:  # noqa
+            ctx.violation(f"{s.name}.{m.name} (REST): body does not decode under the input descriptor: {e!r}"[:300], case)
+            return
+        if got != sent:
+            ctx.violation(f"{s.name}.{m.name} (REST): URI + body do not carry the caller's request", dict(case, got_b64=U.b64(got)))
 
     @staticmethod
     def has_path_var(m):
@@ -836,6 +933,10 @@ def write_corpus():
     items.append(("w_named_empty_sub", req, 5, None))
     req, _ = make_api(env.rng("C03-w", 6), "same")
     items.append(("w_streaming_http_path_variable", req, 6, None))
+    req, y = make_iam_api(env.rng("C03-w", 7), own_types=True)
+    items.append(("w_iam_named_rpcs_own_types", req, 7, y))
+    req, y = make_iam_api(env.rng("C03-w", 8), own_types=False)
+    items.append(("w_iam_named_rpcs_iam_types", req, 8, y))
     for tag, req, ri, y in items:
         with open(os.path.join(CORPUS, tag + ".json"), "w") as f:
             json.dump({"tag": tag, "request_b64": apigen.req_b64(req), "rindex": ri, "service_yaml": y}, f, indent=1)
@@ -846,13 +947,16 @@ def plan(ctx):
     for name in sorted(os.listdir(CORPUS)) if os.path.isdir(CORPUS) else []:
         c = json.load(open(os.path.join(CORPUS, name)))
         jobs.append((c["tag"], apigen.req_from_b64(c["request_b64"]), c.get("rindex", 0), c.get("service_yaml")))
-    ctx.oblige("corpus: the 7 witness APIs of corpus/C03 are present", len(jobs) >= 7, f"{len(jobs)} found", "build")
+    ctx.oblige("corpus: the 9 witness APIs of corpus/C03 are present", len(jobs) >= 9, f"{len(jobs)} found", "build")
     n = ctx.n(7, 90)
     i = made = 0
     while made < n and i < 4 * n:
         r = env.rng("C03-api", i)
         try:
-            req, y = make_api(r, ["same", "dep", "sub"][i % 3], add_iam=(i % 7 == 5), mixins=(i % 5 == 4))
+            if i % 8 == 6:
+                req, y = make_iam_api(r, own_types=r.random() < 0.5, first=r.random() < 0.7)
+            else:
+                req, y = make_api(r, ["same", "dep", "sub"][i % 3], add_iam=(i % 7 == 5), mixins=(i % 5 == 4))
             jobs.append((f"a{i}", req, i, y))
             made += 1
         except apigen.Invalid:
